@@ -178,6 +178,17 @@ pub fn plan(prop: &str, tier: &str) -> Option<Plan> {
                 ],
             })
         }
+        "C14" => Some(Plan {
+            jobs: vec![job(prop, "progsweep", "macros", tier, json!({}))],
+            level: "exploration".into(),
+            rule: "every invocation of digraph!, ungraph!, sync_digraph!, sync_ungraph! in each of the four signature forms with <=3 listed nodes (identity and reversed listing order), each node's edge list in {omitted, [], every list of <=2 targets over the listed keys} (quick: all with <=2 nodes, 3 nodes with <=2 edges in total), distinct node and edge value literals; per arm invocations with an edge naming an unlisted key at every position of a short list; the () arm and the *_node! / *_connect! helpers. Every program is generated as Rust source, compiled against the working tree and run; its observation (node set, values, per-node edge lists) is compared with the denotation computed by the generator from the invocation's syntax. nontrivial = every invocation".into(),
+            bounds: json!({"listed_nodes": 3, "targets_per_list": 2, "forms": 4, "macros": 4}),
+            exhaustive: true,
+            assumptions: vec![
+                "key type u8, value types i64 / (): the macro bodies do not depend on the concrete types".into(),
+                "incoming-edge order (directed) and the position of foreign half-edges (undirected) are not part of the denotation; each node's own listed edges must appear in listed order".into(),
+            ],
+        }),
         "C15" => {
             let mut jobs = Vec::new();
             for f in ["sync_digraph", "sync_ungraph"] {
@@ -269,6 +280,7 @@ pub fn work(job: &Job, out: &mut Out) {
         "docsweep" => docsweep::sweep(job, out),
         "progsweep" => match job.property.as_str() {
             "C16" => progsweep::c16(job, out),
+            "C14" => progsweep::c14(job, out),
             other => panic!("GDSL_MC_HARNESS: progsweep has no sweep for {}", other),
         },
         "lockstep" => match job.flavour.as_str() {
@@ -289,6 +301,7 @@ pub fn replay(property: &str, engine: &str, flavour: &str, case: &Value) -> Vec<
         "docsweep" => docsweep::replay(property, case),
         "progsweep" => match property {
             "C16" => progsweep::replay_c16(property, case),
+            "C14" => progsweep::replay_c14(property, case),
             other => panic!("GDSL_MC_HARNESS: progsweep has no replay for {}", other),
         },
         "lockstep" => match flavour {
